@@ -57,7 +57,7 @@ UNITS = {
             ("src/header/mod.rs", ["struct:Header", "consts:Header"]),
             ("src/range/mod.rs", ["struct:Range", "struct:ContentRange", "consts:Range"]),
             ("src/request/mod.rs", ["struct:Request", "struct:Method", "const:METHOD"]),
-            ("src/response/mod.rs", ["struct:Response", "fn:Response::generate_body", "fn:Response::generate_response"]),
+            ("src/response/mod.rs", ["struct:Response", "fn:Response::generate_body", "fn:Response::generate_response", "fn:Response::generate"]),
         ],
         "contracts": ["contracts/response.vc"],
     },
@@ -254,6 +254,29 @@ UNITS = {
         ],
         "contracts": ["contracts/request.vc", "contracts/server.vc", "contracts/app.vc", "contracts/forms.vc"],
     },
+    "response_parse": {
+        "preludes": ["shims/core.rs", "shims/bytes.rs", "shims/cursor.rs"],
+        "specs": ["contracts/spec/hv.rs", "contracts/spec/frames.rs", "contracts/spec/request.rs", "contracts/spec/response_parse.rs"],
+        "sources": [
+            SYMBOL_SRC,
+            ("src/http/mod.rs", ["struct:Version", "const:VERSION", "struct:HTTP", "fn:HTTP::version_list:assume"]),
+            ("src/ext/string_ext/mod.rs", ["struct:StringExt", "fn:StringExt::truncate_new_line_carriage_return:assume"]),
+            ("src/mime_type/mod.rs", ["struct:MimeType", "consts:MimeType"]),
+            ("src/header/mod.rs", ["struct:Header", "consts:Header"]),
+            ("src/request/mod.rs", ["struct:Method", "const:METHOD"]),
+            ("src/body/multipart_form_data/mod.rs", ["struct:FormMultipartData", "fn:FormMultipartData::extract_boundary"]),
+            ("src/range/mod.rs", ["struct:Range", "struct:ContentRange", "consts:Range", "fn:ContentRange::new", "fn:Range::parse_line_as_bytes", "fn:Range::convert_bytes_array_to_string",
+                                  "fn:Range::_parse_raw_content_range_header_value", "fn:Range::_parse_content_range_header_value",
+                                  "fn:Range::parse_multipart_body_with_boundary"]),
+            ("src/response/mod.rs", ["struct:Response", "struct:StatusCodeReasonPhrase", "struct:ResponseStatusCodeReasonPhrase",
+                                     "const:STATUS_CODE_REASON_PHRASE", "struct:Error", "consts:Response", "fn:Response::status_code_reason_phrase_list",
+                                     "fn:Response::_parse_http_version_status_code_reason_phrase_string", "fn:Response::parse_http_response_header_string",
+                                     "fn:Response::_parse_http_response_header_string",
+                                     "fn:Response::_is_multipart_byteranges_content_type", "fn:Response::_get_header", "fn:Response::get_header",
+                                     "fn:Response::parse_raw_response_via_cursor", "fn:Response::parse"]),
+        ],
+        "contracts": ["contracts/request.vc", "contracts/response_parse.vc"],
+    },
 }
 for k, v in UNITS.items():
     v["name"] = k
@@ -275,6 +298,8 @@ def owner(unit, f):
         return "C04"
     if unit == "range_parse":
         return "C04" if f.kind in SAFETY_KINDS else "C03"
+    if unit == "response_gen" and f.fn == "Response::generate":
+        return "C15"
     if f.kind == "precondition" and f.snippet.startswith("false@"):
         return "C13"
     return None
@@ -288,6 +313,34 @@ def counts_for(pid):
 
 
 PROPS = {
+    "C15": {
+        "units": ["response_gen", "response_parse"],
+        "level": "proof",
+        "falsifier": ["parsers", "response"],
+        "case_prefixes": ["c15_", "generate_response"],
+        "known_cases": ["c15_generate_differs"],
+        "counts": counts_for("C15"),
+        "samples": [
+            "Response::_parse_http_version_status_code_reason_phrase_string / postcondition / res.is_ok() <==> status_line_ok(line)  (registered code, its phrase up to case, supported version)",
+            "Response::generate / postcondition / res@ == response_bytes(.., GET)  - the SAME specification Response::generate_response is proved against (known finding F10)",
+            "Response::parse / termination + panic freedom for every input of at most 2 GiB",
+        ],
+        "assumptions": ["the serialise-then-parse round trip itself is not proved; it is exercised by the native falsifier (300 random multi-part and single-body responses per run)",
+                        "Response::parse requires input of at most i32::MAX bytes (its byte counters are i32)"],
+    },
+    "C20": {
+        "units": ["response_parse", "range_parse", "base64_decode", "request_parse"],
+        "level": "proof",
+        "falsifier": ["parsers"],
+        "case_prefixes": ["c20_"],
+        "counts": counts_for("C20"),
+        "samples": [
+            "Response::parse_raw_response_via_cursor / termination / decreases rem(old(cursor)).len()",
+            "Range::parse_multipart_body_with_boundary / termination + no overflow / decreases rem(old(cursor)).len(); loop: rem(cursor).len() + (is_not_boundary ? 1 : 0)",
+            "Base64::decode / every input returns Ok or Err (functional contract proved)",
+        ],
+        "assumptions": ["entry points NOT yet under contract (listed so that the claim is not read as complete): JSON object/array parsers, FormMultipartData::parse, Header::parse_header, ContentDisposition::parse, config-file reader, UrlPath::extract_parts_from_pattern"],
+    },
     "C01": {
         "units": ["static", "controllers"],
         "level": "proof",
